@@ -120,3 +120,69 @@ def run_turn(world: World, messages, verdicts, llm_fn, faults=(), fault_kind="ra
     reply, exc = world.generate(**kw)
     calls, acts = world.since(m)
     return Turn(reply, exc, calls, acts)
+
+
+# ----------------------------------------------------------------------------- Colang 2.x worlds
+def v2_rail(name, kind):
+    exc = "InputRailException" if kind == "input" else "OutputRailException"
+    return f"""
+flow {name} $t
+  $ok = await VerifRailAction(rail="{name}", text=$t)
+  if not $ok
+    if $system.config.enable_rails_exceptions
+      send {exc}(message="BLOCKED-{name}")
+    else
+      bot say "REFUSED-{name}"
+    abort
+"""
+
+
+V2_MAIN_NODIALOG = """
+flow main
+  activate handling
+
+flow handling
+  global $user_message
+  user said something
+  $ans = await VerifLookupAction(q=$user_message)
+  $text = ..."Answer the user: {$user_message}"
+  bot say $text
+"""
+
+V2_MAIN_DIALOG = """
+flow main
+  activate greeting
+  activate asking
+
+flow user expressed greeting
+  user said "hello"
+
+flow greeting
+  user expressed greeting
+  bot say "PREDEF-greet-back"
+
+flow asking
+  global $user_message
+  user said "ask"
+  $ans = await VerifLookupAction(q=$user_message)
+  $text = ..."Answer the user: {$user_message}"
+  bot say $text
+"""
+
+
+def v2_world(in_order=(), out_order=(), dialog=False, exceptions=False, extra_colang="", main=None):
+    colang = "import core\nimport guardrails\n"
+    colang += "".join(v2_rail(r, "input") for r in IN_RAILS) + "".join(v2_rail(r, "output") for r in OUT_RAILS)
+    if in_order:
+        colang += "\nflow input rails $input_text\n" + "".join(f"  {r} $input_text\n" for r in in_order)
+    if out_order:
+        colang += "\nflow output rails $output_text\n" + "".join(f"  {r} $output_text\n" for r in out_order)
+    colang += main if main is not None else (V2_MAIN_DIALOG if dialog else V2_MAIN_NODIALOG)
+    colang += extra_colang
+    yaml = 'colang_version: "2.x"\n'
+    if exceptions:
+        yaml += "enable_rails_exceptions: True\n"
+    w = World(colang, yaml)
+    w.rails.register_action(w._rail_action, name="VerifRailAction")
+    w.rails.register_action(w._dialog_action, name="VerifLookupAction")
+    return w
